@@ -120,6 +120,8 @@ def main(tier, seed):
             direct_bad.append({"q1": qa, "q2": qb, "why": "a & b != b & a (or |, or their hashes differ) for operands whose keys hash alike"})
     ebad, edited_checked = qtie.edited_point_check(tf, qs, rqs, univ)
     direct_bad += [dict(x, q1=x["query"], q2=x["query"]) for x in ebad]
+    dbad, derived_checked = qtie.derived_check(tf, qs, univ)
+    direct_bad += [dict(x, q1=x["query"], q2=("and", x["query"], x.get("held_with"))) for x in dbad]
     f = ck.work / "cases_c17.v"
     qtie.emit_eq_cases(f, qs, eq_rows, hashable)
     rc, out = coqc_file(f, timeout=1500)
@@ -145,7 +147,7 @@ def main(tier, seed):
         "trusted_base": TRUSTED_BASE_COMMON + ["hand model Query.v (qhash, hv_eqb, qeq) tied by correspondence", "twin table",
                                                "Print Assumptions: " + json.dumps(b["assumptions"])],
         "theorems": b["theorems"], "forbidden_tokens_found": b["forbidden"],
-        "evaluations": n * n, "expressions": n, "pairs_equal": n_equal, "commutativity_pairs_checked": comm_checked, "same_object_after_in_place_edit_checked": edited_checked,
+        "evaluations": n * n, "expressions": n, "pairs_equal": n_equal, "commutativity_pairs_checked": comm_checked, "same_object_after_in_place_edit_checked": edited_checked, "queries_unchanged_by_deriving_from_them_checked": derived_checked,
         "distinct_nontrivial": sum(1 for i in range(n) for j in eq_rows[i] if i != j),
         "rule": "all ordered pairs over {vocabulary, near-duplicates, depth-1 closure of a core (exhaustive), sampled depth-2 expressions with their mirror images}: "
                 "q1 == q2 and is_hashable compared implementation vs model; for equal pairs, equal behaviour on the whole point universe and equal hash() checked "
